@@ -15,6 +15,7 @@ PROP = {'title': 'Typed wrappers are transparent; ==, < and hash are mutually co
                'sources': ['harness/C17.cpp', 'harness/C17_sum.cpp', 'harness/C17_math.cpp', 'harness/C17_cont.cpp', 'harness/C17_elem.cpp', 'harness/C17_elem2.cpp', 'harness/C17_order.cpp', 'harness/C17_rec.cpp'],
                'libs': [],
                'flavour': 'asan'}],
+ 'compile_probes': [{'name': 'strong_typedef_over_user_type_with_user_operators', 'source': 'harness/C17_probe_user_ops.cpp'}],
  'deadline': {'quick': 300, 'thorough': 1500},
  'rule': 'nested loops over explicit domains: strong_typedef<int|i64> all pairs of [-128,127]^2, strong_typedef<u32|u64> all pairs of the '
          'wrap-around boundary values, every operator vs __int128 arithmetic; per value type a universe of objects (all component '
